@@ -417,6 +417,10 @@ def run(ctx):
             ctx.problem('correspondence', 'suite compile: model and implementation disagree on model %s; input=%s impl=%s model=%s '
                         '(the semantic oracle passed on this model)' % (cases[idx][0], cases[idx][1][:1500], cases[idx][2][:1500], model_out[:1500]),
                         inputs={'model': cases[idx][0]}, failing_input_found=False)
+    why = oracle_later_arguments(ctx.rng)
+    ctx.evaluations += 1
+    if why:
+        ctx.problem('oracle', 'property fails on the implementation: ' + why, inputs={'suite': 'later_arguments'}, failing_input_found=True)
     for _ in range(ctx.n(12, 100)):
         why = oracle_powcone(ctx.rng)
         ctx.evaluations += 1
@@ -427,6 +431,28 @@ def run(ctx):
     why = probe_known()
     if why:
         ctx.known_hits.append(why)
+
+
+def oracle_later_arguments(rng):
+    """a Variable that occurs ONLY in the second argument of relent, or only in a later component of a vector2norm argument, is a
+    Variable of the compiled system: it has columns, and a solve loads a value into it"""
+    import sageopt.coniclifts as cl
+    with warnings.catch_warnings():
+        warnings.simplefilter('ignore')
+        xa = cl.Variable(shape=(2,), name='la_x')
+        ya = cl.Variable(shape=(2,), name='la_y')
+        za = cl.Variable(shape=(1,), name='la_z')
+        cons = [cl.relent(xa + 1.0, ya + 2.0) <= 3, cl.vector2norm(cl.concatenate((xa[:1], 2.0 * za))) <= 4, xa >= 0, xa <= 2]
+        A, b, K, vm, vs, _ = cl.compile_constrained_system(cons)
+        names = sorted(v.name for v in vs)
+        for v in (xa, ya, za):
+            if v.name not in names or v.name not in vm or np.any(np.asarray(vm[v.name]) < 0):
+                return ('the Variable %s occurs only in a later argument / component of a nonlinear atom and is missing from the compiled '
+                        'system (Variables %s, variable_map[%s] = %s)' % (v.name, names, v.name, vm.get(v.name)))
+        st, val = cl.Problem(cl.MIN, ya[0] + ya[1] - za[0], cons + [ya >= -1, za <= 1]).solve(verbose=False)
+        if st == 'solved' and not (np.all(np.isfinite(ya.value)) and np.all(np.isfinite(za.value))):
+            return 'after a solve the Variables la_y / la_z hold %s / %s' % (ya.value, za.value)
+    return None
 
 
 def oracle_powcone(rng):
